@@ -111,6 +111,10 @@ def mutations(y):
     d = m(); d["host_configurations"][hl]["firewall"] = {"(99, 0)": []}; yield "hostfw-bad-subnet", d
     d = m(); d["host_configurations"][h0]["firewall"] = {"(1, 99)": [sv]}; yield "hostfw-bad-host", d
     d = m(); d["host_configurations"][h0]["firewall"] = {"garbage": []}; yield "hostfw-garbage-address", d
+    d = m(); d["host_configurations"][hl]["firewall"] = {"(0, 0)": [sv]}; yield "hostfw-internet-address", d
+    d = m(); d["host_configurations"][h0]["firewall"] = {f"(1, {y['subnets'][0]})": [sv]}; yield "hostfw-host-off-by-one", d
+    d = m(); d["host_configurations"][h0]["firewall"] = {f"({nsub + 1}, 0)": [sv]}; yield "hostfw-subnet-off-by-one", d
+    d = m(); d["host_configurations"][hl]["firewall"] = {"(1, -1)": [sv]}; yield "hostfw-negative-host", d
     d = m(); d["host_configurations"][hl]["firewall"] = {h0: ["nonexistent"]}; yield "hostfw-unknown-service", d
     d = m(); d["host_configurations"][h0]["firewall"] = {hl: sv}; yield "hostfw-not-a-list", d
     d = m(); d["host_configurations"][h0]["firewall"] = {h0: [sv, sv]}; yield "hostfw-duplicate-service", d
